@@ -11,6 +11,7 @@ import (
 	"github.com/acquirecloud/golibs/container"
 	gerrors "github.com/acquirecloud/golibs/errors"
 	"verifh/internal/bfs"
+	"verifh/internal/deepdump"
 	"verifh/internal/ev"
 )
 
@@ -204,6 +205,8 @@ func (s *sys) key() string {
 		}
 	}
 	fmt.Fprintf(&b, "/%d", len(s.model))
+	// every other field the buffer object has (the element slice is rendered above, by occupancy)
+	b.WriteString("|" + deepdump.Dump(s.rb, deepdump.Options{SkipFields: map[string]bool{"ringBuffer[int].buf": true}}))
 	return b.String()
 }
 
